@@ -115,7 +115,7 @@ ValidateAgrees ==
     /\ IsSet(ea) => (ea[1].ok = Valid(lang, a) /\ ea[1].o = Expand(lang, a))
     /\ IsSet(eb) => (eb[1].ok = Valid(lang, b) /\ eb[1].o = Expand(lang, b))
 RefuseOnlyInvalid == (IsSet(out) /\ out[1].rc = 2) => (~Valid(lang, a) \/ ~Valid(lang, b))
-Injective == \A l \in Langs : NoCollision(l, HashBits)
+Injective == \A l \in Langs : \A k \in KeySet(l) : \A x, y \in DocVals(l, k) : x # y => R(x) # R(y)   \* = NoCollision(l, HashBits), on the table
 TypeOK == /\ lang \in Langs /\ DOMAIN a = KeySet(lang) /\ DOMAIN b = KeySet(lang)
           /\ \A k \in KeySet(lang) : a[k] \in DocVals(lang, k) /\ b[k] \in DocVals(lang, k)
           /\ nmut \in 0..MaxMut /\ nboth \in 0..MaxBoth
